@@ -519,7 +519,29 @@ func (e *Engine) registerIntrinsics() {
 	in[retryPkg+".Do"] = func(c *PathCtx, fr *frame, args []Value) Value {
 		R := c.eng.param(c.entry, "R", 2)
 		var last Value = Iface{}
+		// the context is checked first: with a finished context the function is never called and
+		// ctx.Err() is returned; between two attempts a finished context ends the loop with the
+		// last error (retry.go)
+		ctxErr := func() Value {
+			ci, ok := args[0].(Iface)
+			if !ok || ci.T == nil {
+				return Iface{}
+			}
+			f := c.eng.lookupMethod(ci.T, "Err")
+			if f == nil || f.Blocks == nil {
+				return Iface{}
+			}
+			return c.call(fr, fr.callPos, f, []Value{ci.V}, nil)
+		}
+		if e := ctxErr(); !isNilValue(e) {
+			return e
+		}
 		for i := 0; i < R; i++ {
+			if i > 0 {
+				if e := ctxErr(); !isNilValue(e) {
+					return last
+				}
+			}
 			r := c.call(fr, fr.callPos, args[1], nil, nil)
 			if isNilValue(r) {
 				return Iface{}
